@@ -404,11 +404,20 @@ class BuildVariants(BoundedCheck):
                         pos = [text.find('# begin {}\n'.format(s.name)) for s in want]
                         if any(q < 0 for q in pos) or pos != sorted(pos) or any(text.count('# begin {}\n'.format(s.name)) != sum(1 for x in want if x.name == s.name) for s in want):
                             out.append(Violation("converter's output is inserted verbatim, once per symbol, in order", 'c15.converter-output', jcase, 'in order, once', pos))
-                ns = {'BaseModel': BaseModel, 'np': np, 'List': List, 'Optional': Optional, 'Any': Any}
+                # the text without type hints is executable in a namespace that provides BaseModel (and NumPy) only
+                ns = {'BaseModel': BaseModel, 'np': np, 'List': List, 'Optional': Optional, 'Any': Any} if typed else {'BaseModel': BaseModel, 'np': np}
                 exec(text, ns)
                 built = fsic.build_model(symbols, converter=conv, with_type_hints=typed, **st)
+                if built.CODE != text:
+                    out.append(Violation('the CODE attribute is the definition text for the same options', 'c15.code-attribute', dict(jcase, typed=typed, converter=cname),
+                                         text[:60], str(built.CODE)[:60]))
                 ns2 = dict(ns)
-                exec(built.CODE, ns2)
+                try:
+                    exec(built.CODE, ns2)
+                except Exception as ex:  # noqa: BLE001
+                    out.append(Violation('the CODE attribute executes in a namespace that provides BaseModel', f'c15.code-exec:{type(ex).__name__}',
+                                         dict(jcase, typed=typed, converter=cname), 'class', f'{type(ex).__name__}: {ex}'[:80]))
+                    ns2 = dict(ns)
                 variants[(typed, cname)] = [ns['Model'], built, ns2['Model']]
         ref_cls = variants[(True, 'default')][1]
         n = ref_cls.LAGS + ref_cls.LEADS + 3
